@@ -11,6 +11,7 @@ import SocVerif.Driver.BuilderD
 import SocVerif.Driver.DecD
 import SocVerif.Driver.CsrMonD
 import SocVerif.Driver.GpioD
+import SocVerif.Driver.E2ED
 
 def main (args : List String) : IO UInt32 := do
   match args with
@@ -29,4 +30,5 @@ def main (args : List String) : IO UInt32 := do
   | ["wbdec"] => DecD.mainWb; return 0
   | ["csrmon"] => CsrMonD.main; return 0
   | ["gpio"] => GpioD.main; return 0
+  | ["e2e"] => E2ED.main; return 0
   | _ => IO.eprintln "usage: driver <mux|mmap|...>"; return 2
